@@ -879,7 +879,15 @@ NOT_COVERED = [
     "train_a2c / train_ppo / train_mrq call sites (that the prepared batches are the ones passed to the updates)",
     "degenerate A2C rollouts with a single environment or a single step (value_function(...).squeeze() drops the axis; reshape raises / broadcasts)",
 ]
-REPLAY = {"": "c07_returns"}
+REPLAY = {"": "c07_returns", "model_based_encoder_loss": "c03_losses"}
+
+# "The same holds for the learning signals (... encoder loss) computed from sampled subtrajectories, which ignore
+# everything after the first terminated step": the encoder-loss tasks of C03 prove the loss equal to the documented
+# sum with the CUMULATIVE not-terminated mask m_t = prod_{s<t}(1 - terminated_s) (bounded horizons 2 and 3), of
+# which this clause is a corollary; they are part of this property's check as well.
+from .C03 import TASKS as _C03_TASKS  # noqa: E402
+
+TASKS = TASKS + [t for t in _C03_TASKS if t.name in ("model_based_encoder_loss[horizon=3]", "model_based_encoder_loss[horizon=2]")]
 EXPLANATION = (
     "Every estimator is proved equal to its textbook recurrence for symbolic sequence lengths, batch sizes and environment counts; causality follows by induction along the "
     "recurrence on two input copies. PPO (repaired code): update_ppo estimates per environment (vmap of compute_gae over reshape(n_envs, -1)), so the advantage / return at "
